@@ -65,7 +65,10 @@ def _call(f, *a, **k):
 
 
 def impl_observe(x):
-    pt = _pt()
+    return observe_on(_pt(), x)
+
+
+def observe_on(pt, x):
     o = {
         "keyF": _call(pt._resolve_atom_to_key, x, strict=False), "keyT": _call(pt._resolve_atom_to_key, x, strict=True),
         "ZF": _call(pt.to_Z, x, strict=False), "ZT": _call(pt.to_Z, x, strict=True),
@@ -433,6 +436,125 @@ def py_int(s):
 
 
 # ------------------------------------------------------------------------------------------------
+# history: the lookups must not keep state between calls.  Float identifiers (accepted today through int()) are
+# outside the model; they are issued only as history-makers and their own answers are not judged.
+
+FLOAT_MAKERS = [0.0, 1.0, 2.0, 36.0, 37.0, 84.0, 117.0, 118.0, -1.0, 1.5, 1000.0]
+
+
+_ISSUED_FLOATS = []   # float identifiers issued so far in this process (they may have left state behind)
+
+
+def collide_history(x):
+    """earlier float identifiers whose text collides with x: part of the failing input if the table keeps state"""
+    return list(dict.fromkeys(m for m in _ISSUED_FLOATS if norm_id(m) == norm_id(x)))
+
+
+def norm_id(x):
+    """identifiers whose str() agree after strip/lower (and a leading '+') are 'colliding'"""
+    return str(x).strip().lower().lstrip("+")
+
+
+def collision_groups(ctx, spec):
+    """groups of related identifiers (same text after str/strip/lower/capitalize, or the same species spelt validly and
+    invalidly); every group is issued in a random order and in the reverse order."""
+    rng = ctx.rng
+    groups = []
+    zs = [0, 1, 2, 36, 37, 84, 117, 118, -1] + rng.sample(range(3, 117), 20 if ctx.thorough else 6)
+    for z in zs:
+        t = str(z)
+        groups.append([z, float(z), t, str(float(z)), " " + t, t + " ", " " + t + " ", "+" + t, "0" + t, t + ".0 ", " " + t + ".0", t + ".", t + ".00"])
+    keys = sorted(spec.species)
+    pick = ["H", "D", "H2", "Kr84", "X", "X0", "U238", "Ts"] + rng.sample(keys, 150 if ctx.thorough else 30)
+    for k in dict.fromkeys(pick):
+        if k not in spec.species:
+            continue
+        g = [k, k.lower(), k.upper(), " " + k, k + " ", " " + k.lower() + " ", k + ".0", "+" + k, k + "_"]
+        rec = spec.species[k]
+        sym = "".join(ch for ch in k if ch.isalpha())
+        num = "".join(ch for ch in k if ch.isdigit())
+        if num:
+            g += [num + sym, num + sym.lower(), num, float(num), num + ".0"]
+        if k in spec.E:
+            g += [rec["name"], rec["name"].upper(), " " + rec["name"], rec["Z"], float(rec["Z"]), str(rec["Z"]), str(float(rec["Z"]))]
+        groups.append(list(dict.fromkeys((type(x).__name__, x) for x in g)))
+        groups[-1] = [x for _, x in groups[-1]]
+    return groups
+
+
+def orepr(o):
+    return {k: repr(v) for k, v in o.items()}
+
+
+def run_sequences(ctx, spec, corr, groups):
+    """each group, in a random order and reversed, once on a fresh PeriodicTable() and once on the module singleton;
+    every non-float answer is judged by the oracle; the replay carries the calls made before it."""
+    pt0 = _pt()
+    for g in groups:
+        perm = list(g)
+        ctx.rng.shuffle(perm)
+        for seq in (perm, perm[::-1]):
+            for fresh in (True, False):
+                try:
+                    pt = type(pt0)() if fresh else pt0
+                except Exception as e:  # noqa: BLE001
+                    corr.errors.append(f"cannot construct a fresh PeriodicTable: {e!r}")
+                    return
+                for i, x in enumerate(seq):
+                    o = observe_on(pt, x)
+                    corr.count("history-sequences")
+                    if isinstance(x, float):
+                        corr.hit("history_maker_float")
+                        _ISSUED_FLOATS.append(x)
+                        continue
+                    bad = oracle(spec, x, o)
+                    if bad:
+                        corr.failures.append({"stream": "history", "case": {"atom": x, "history": seq[:i], "fresh_table": fresh},
+                                              "what": bad + "  [after the earlier calls listed in case.history]", "observed": orepr(o)})
+
+
+def run_history_replay(ctx, spec, corr, memo):
+    """after the main pass: history-makers (floats, ints, valid strings), then the invalid stream again, the colliding
+    decimal/blank/sign spellings, and a shuffled sample of all earlier identifiers; each answer is judged by the oracle
+    and compared with the answer given the first time."""
+    rng = ctx.rng
+    pt = _pt()
+    makers = list(FLOAT_MAKERS) + [float(z) for z in rng.sample(range(0, 118), 25)] + list(range(0, 118, 9)) + \
+        ["kr84", "KR", "Hydrogen", "d", "u238", " 1 ", "+1", "1_1_7"]
+    for m in makers:
+        observe_on(pt, m)
+        if isinstance(m, float):
+            _ISSUED_FLOATS.append(m)
+        corr.count("history-makers")
+    targets = list(CORPUS_INVALID) + list(CORPUS_INTFORMS)
+    for m in makers:
+        if isinstance(m, float):
+            t = str(m)
+            targets += [t, " " + t, t + " ", "+" + t, t.capitalize(), str(int(m)) + ".", str(int(m)) + ".00"]
+    earlier = [x for (_t, x) in memo_keys(memo)]
+    rng.shuffle(earlier)
+    targets += earlier if ctx.thorough else earlier[:4000]
+    for x in targets:
+        if isinstance(x, float):
+            continue
+        o = observe_on(pt, x)
+        corr.count("history-replay")
+        bad = oracle(spec, x, o)
+        first = memo.get((type(x).__name__, x))
+        if not bad and first is not None and first != orepr(o):
+            diff = [k for k in first if first[k] != orepr(o)[k]]
+            bad = f"the same identifier was answered differently later in the run (state kept between calls): {diff[:4]} first {first[diff[0]]} now {orepr(o)[diff[0]]}"
+        if bad:
+            coll = [m for m in makers if norm_id(m) == norm_id(x)]
+            corr.failures.append({"stream": "history", "case": {"atom": x, "history": coll or makers, "fresh_table": False},
+                                  "what": bad + "  [after the earlier calls listed in case.history]", "observed": orepr(o)})
+
+
+def memo_keys(memo):
+    return [(t, x) for (t, x) in memo]
+
+
+# ------------------------------------------------------------------------------------------------
 def build_cases(ctx, spec):
     rng = ctx.rng
     cases = []  # (stream, x)
@@ -449,8 +571,11 @@ def build_cases(ctx, spec):
             zs = str(z)
             for v in (" " + zs, zs + "\n", "+" + zs, "00" + zs, "_".join(zs), "-" + zs):
                 cases.append(("intforms", v))
-    for k in sorted(spec.species):
-        for v in case_variants(rng, k, ctx.thorough):
+    for j, k in enumerate(sorted(spec.species)):
+        vs = case_variants(rng, k, ctx.thorough)
+        if not ctx.thorough and j % 3:
+            vs = vs[:-1]   # quick tier: the random mixed-case spelling for every third label only
+        for v in vs:
             cases.append(("labels", v))
     for x in gen_invalid(rng, spec, 15000 if ctx.thorough else 2000):
         cases.append(("invalid", x))
@@ -462,7 +587,10 @@ def correspond(ctx):
     corr.rule = ("exhaustive: every element row x {int Z, str Z, symbol, name} and every species label of NIST SRD-144 (+dummy), "
                  "each string in {as tabulated, lower, UPPER, Capitalised, random mixed} case, x 12 accessor observations "
                  "(resolved key, to_Z/to_E/to_element strict on and off, to_A, to_mass Decimal, to_period, to_group) + float mass + 4 "
-                 "alias accessors; plus int()-grammar spellings of Z, and invalid identifiers (corpus + generated). "
+                 "alias accessors; plus int()-grammar spellings of Z, and invalid identifiers (corpus + generated); plus HISTORY streams: groups of "
+                 "colliding identifiers (int, float, digit/decimal/blank/sign strings, labels spelt validly and invalidly) issued in both orders on a fresh "
+                 "table and on the singleton, and after float/int/string history-makers the invalid stream and a shuffled sample of all earlier "
+                 "identifiers re-issued and compared with oracle and first answer. "
                  "non-trivial = the implementation returned data (not an error) for the identifier; distinct = distinct identifiers")
     try:
         spec = Spec(ctx.repo)
@@ -470,7 +598,17 @@ def correspond(ctx):
         corr.errors.append(f"cannot read the NIST raw data: {e!r}")
         return corr
     cases = build_cases(ctx, spec)
+    # history first: related identifiers in both orders, before anything else has touched the table in this process
+    groups = collision_groups(ctx, spec)
+    run_sequences(ctx, spec, corr, groups)
+    ctx.log(f"history sequences: {corr.streams.get('history-sequences', 0)} calls over {len(groups)} groups x 2 orders x (fresh table, singleton); "
+            f"{len(corr.failures)} failures")
+    for g in groups:  # the members also go through the model below
+        for x in g:
+            if not isinstance(x, float):
+                cases.append(("history-members", x))
     seen = set()
+    memo = {}
     terms, meta = [], []
     fterms, fmeta = [], []
     for stream, x in cases:
@@ -479,6 +617,7 @@ def correspond(ctx):
             continue
         seen.add(key)
         o = impl_observe(x)
+        memo[key] = orepr(o)
         corr.count(stream)
         if o["keyF"][0] == "Ok":
             corr.nontriv([stream, repr(x)])
@@ -487,7 +626,7 @@ def correspond(ctx):
             corr.hit("rejected_" + o["keyF"][1])
         bad = oracle(spec, x, o)
         if bad:
-            corr.failures.append({"stream": "oracle", "case": {"atom": x}, "what": bad,
+            corr.failures.append({"stream": "oracle", "case": {"atom": x, "history": collide_history(x)}, "what": bad,
                                   "observed": {k: repr(v) for k, v in o.items()}})
         if isinstance(x, str) and not all(ord(ch) < 128 for ch in x):
             continue  # non-ASCII: implementation + oracle only (outside the modelled domain)
@@ -515,6 +654,10 @@ def correspond(ctx):
         if stream in ("rows", "labels") and ctx.rng.random() < 0.0004:
             corr.sample({"atom": x, "implementation": c})
     corr.sample({"atom": "kr84", "implementation": canon(impl_observe("kr84"))})
+    nf = len(corr.failures)
+    run_history_replay(ctx, spec, corr, memo)
+    ctx.log(f"history replay: {corr.streams.get('history-replay', 0)} identifiers re-issued after {corr.streams.get('history-makers', 0)} "
+            f"history-makers; {len(corr.failures) - nf} failures")
     ctx.log(f"{len(terms)} identifiers through the implementation and the oracle ({len(corr.failures)} oracle failures); evaluating the model")
     bad, errors = eval_cases("C01", REQ, "check_case", terms, max(200, len(terms) // 48 + 1), "pyval * expected")
     corr.errors.extend(f"shard {k}: {e}" for k, e in errors)
@@ -598,7 +741,8 @@ def search(ctx, corr, reasons):
         o = impl_observe(x)
         bad = oracle(spec, x, o)
         if bad:
-            found.append({"stream": "search", "case": {"atom": x}, "what": bad, "observed": {k: repr(v) for k, v in o.items()}})
+            found.append({"stream": "search", "case": {"atom": x, "history": collide_history(x)}, "what": bad,
+                          "observed": {k: repr(v) for k, v in o.items()}})
             if len(found) >= 5:
                 break
     return found
@@ -606,10 +750,14 @@ def search(ctx, corr, reasons):
 
 def replay(ctx, rp):
     x = rp["case"]["atom"]
+    hist = rp["case"].get("history") or []
     spec = Spec(ctx.repo)
-    o = impl_observe(x)
+    pt = _pt()
+    for h in hist:  # JSON keeps int / float / str apart; the history-makers' own answers are not judged
+        observe_on(pt, h)
+    o = observe_on(pt, x)
     bad = oracle(spec, x, o)
-    return {"atom": x, "implementation": {k: repr(v) for k, v in o.items()}, "oracle": bad, "fails": bool(bad)}
+    return {"atom": x, "history": hist, "implementation": {k: repr(v) for k, v in o.items()}, "oracle": bad, "fails": bool(bad)}
 
 
 KNOWN = {}
